@@ -39,6 +39,10 @@ func (c RawConfiguration) Multicast(ctx context.Context, d QuorumCallData, opts 
 	// nodeStream sends an empty reply on replyChan when the message has been sent
 	// wait until the message has been sent
 	for ; sentMsgs > 0; sentMsgs-- {
-		<-replyChan
+		select {
+		case <-replyChan:
+		case <-ctx.Done():
+			return // don't wait for the remaining messages once the context has ended
+		}
 	}
 }
